@@ -299,6 +299,64 @@ def clearkey_requests(_):
     return acc
 
 
+KEY_OPS = ['add key (PUT computed)', 'add key (POST form)', 'edit key 1', 'delete the key used by the encrypted files',
+           'delete the key used by the encrypted files (POST form)', 'delete the unused key (POST form)',
+           'add key (PUT explicit, duplicate kid)']
+
+
+def clearkey_history(first):
+    """The licence endpoint after every step of a key-management history (operation alphabet of C17): it answers from
+    the key table as it is now. All histories of length <= 3 that start with `first`; the endpoint is asked for every key
+    id that was ever in the table (and one that never was) before the history and after each step."""
+    from props import c17
+    env = c17.Env.get()
+    acc = core.Acc()
+    table = {n: fn for n, _, fn in c17.ACTIONS}
+    ever = set()
+
+    def table_now():
+        with env.w.appctx():
+            out = {k.hkid.lower(): (k.hkey.decode() if isinstance(k.hkey, bytes) else k.hkey) for k in env.w.models.Key.all()}
+            env.w.models.db.session.remove()
+        return out
+
+    def ask(hist):
+        stored = table_now()
+        ever.update(stored)
+        kids = sorted(ever) + ['000102030405060708090a0b0c0d0e0f']
+        r = env.w.request('POST', '/clearkey', json_body={'kids': [b64u(bytes.fromhex(k)) for k in kids], 'type': 'temporary'})
+        acc.count('evaluations')
+        acc.count('transitions')
+        rec = {'kind': 'clearkey-history', 'history': list(hist)}
+        if r.status != 200:
+            acc.violation(sig('clearkey-history', f'status-{r.status}'), f'after {list(hist)}: POST /clearkey answered {r.status}', rec)
+            return
+        got = {i['kid']: i['k'] for i in (r.json().get('keys') or [])}
+        want = {b64u(bytes.fromhex(k)): b64u(bytes.fromhex(v)) for k, v in stored.items()}
+        acc.nontriv(('clearkey-history', tuple(hist)))
+        if got != want:
+            stale = sorted(set(got) - set(want))
+            acc.violation(sig('clearkey-history', 'answers-for-a-deleted-key' if stale else 'key-value-not-the-stored-one'),
+                          f'after {list(hist)}: the licence endpoint returned {got}, the key table holds {want}', rec)
+
+    def run(hist):
+        env.w.restore(env.snap0)
+        env.rc.cookies_restore(env.cookies)
+        ask(())
+        for i, name in enumerate(hist):
+            W.set_now(c17.NOW)
+            table[name](env, env.lookup(), env.tokens())
+            ask(hist[:i + 1])
+        acc.state(('clearkey-history', tuple(hist)))
+    run((first,))
+    for b in KEY_OPS:
+        run((first, b))
+        for c in KEY_OPS:
+            run((first, b, c))
+    env.w.restore(env.snap0)
+    return acc
+
+
 def manifest_protection(item):
     """ContentProtection elements of a manifest vs the DRM selection and vs the init segment of the same request."""
     template, mode, drm, sel = item[:4]
@@ -526,12 +584,14 @@ def stored_la_url(item):
 def _dispatch(item):
     if item[0] == 'stored-la':
         return stored_la_url(item[1])
+    if item[0] == 'clearkey-history':
+        return clearkey_history(item[1])
     kind, arg = item
     return {'keys': pure_keys, 'pro': pure_pro, 'clearkey': clearkey_requests, 'manifest': manifest_protection}[kind](arg)
 
 
 def run(ctx):
-    items = [('keys', None), ('clearkey', None)]
+    items = [('keys', None), ('clearkey', None)] + [('clearkey-history', op) for op in KEY_OPS]
     n = len(byte_patterns())
     kid_idxs = range(n) if not ctx.quick else list(range(0, 6)) + list(range(6, n, 9))
     for i in kid_idxs:
@@ -581,6 +641,9 @@ def _replay_stored(record):
 def replay(record):
     if record.get('kind') == 'stored-la':
         return _replay_stored(record)
+    if record.get('kind') == 'clearkey-history':
+        a = clearkey_history(record['history'][0])
+        return [(s_, v[0]['what']) for s_, v in a.viol.items()]
     k = record.get('kind')
     if k in ('guid', 'key', 'shortseed'):
         acc = pure_keys(None)
